@@ -57,7 +57,7 @@ fn concurrent_ride_along(tape: &mut Tape, ctx: &RunCtx) -> RunOut {
         clock_small: true,
         sampled_faults: false,
         debris: true,
-        focus: true,
+        focus: 4,
     };
     let run = run_conc(tape, &cfg, ctx.detail);
     let mut out = RunOut::default();
